@@ -123,9 +123,13 @@ CLAIMS = {
             "list lemmas + unfolding of schedule() (Lean 4), negation witness by decide ; differential correspondence with permuted/missing/extra/duplicated/empty collections; whole-system simulation with disagreeing initial and replacement workers"),
     "C06": ("Lean theorems: loadfile key of 'path::anything' is the path; loadscope key of 'prefix::name' is the prefix (class else module); loadgroup key of 'id@group' is the group, "
             "an ungrouped id is its own key (also with '@' inside a parametrisation id) - under decidable well-formedness hypotheses (no ':' in path / last segment, no '@' or ']' in "
-            "group names); each excluded point has a proved witness (known finding F10). Partial: whole units go to one worker and run contiguously - validated by the scheduler "
-            "correspondence and the whole-system monitor, not proved",
-            "string lemmas by induction (split/rsplit/rfind) (Lean 4) ; differential correspondence of the three _split_scope functions and of the '@group' tagging; scheduler correspondence; whole-system simulation with group monitors"),
+            "group names); each excluded point has a proved witness (known finding F10). SCHEDULING (any key function, any collection): the work units of schedule() are exactly the classes of the key - "
+            "every test is in the unit of its key, a unit holds only tests of its key, units with the same key coincide, and inside a unit the tests are in collection order "
+            "(C06_same_group_same_unit, C06_unit_in_collection_order); _assign_work_unit moves the head unit to ONE worker whole and its single runtests carries exactly the unit's not yet "
+            "completed tests in order (C06_assign_sends_whole_unit); homogeneity of units is an invariant of every scheduler call incl. re-queueing after a crash (step_hom) and of every "
+            "execution of the whole system in the three modes (C06_sys_units_hold_one_group). Partial: that a unit is never in two places at once, and contiguity on the worker (FIFO, C05), are "
+            "validated by the scheduler correspondence and the whole-system monitor, not proved",
+            "string lemmas by induction (split/rsplit/rfind); association-list invariants by induction over scheduler calls lifted over every step of the composed system (Lean 4) ; differential correspondence of the three _split_scope functions and of the '@group' tagging; scheduler correspondence; whole-system simulation with group monitors"),
     "C14": ("Lean theorems for every warning and every capability profile of the controller (which classes it can import, what their constructors do): receiving never raises; an "
             "importable class whose constructor accepts the arguments is rebuilt with the same category; otherwise a generic warning carrying '<module>.<class>: <text>' (category kept "
             "when importable, Warning otherwise); the remaining details arrive unchanged or as their repr",
